@@ -216,10 +216,11 @@ def c15(A):
                 o.dec("answered")
                 continue
             all_answered = False
-            if t_ans is not None and abs(t_ans - dl) < 1e-9:
-                continue    # answered exactly at k: either outcome
+            if t_ans is not None and dl - 1e-9 <= t_ans <= dl + late + 1e-6:
+                continue    # answered exactly at k (or before a late-running reactor got to the deadline): either outcome
             # unanswered for k seconds: the connection must be aborted at that instant
-            ab = [x for x in c.tcalls if x["what"] == "abort" and abs(x["t"] - (dl + late)) < 1e-6]
+            # (a reactor that fires late may run the next keepalive tick, due at the same moment, before the deadline's own alarm)
+            ab = [x for x in c.tcalls if x["what"] == "abort" and dl - 1e-6 <= x["t"] <= dl + late + 1e-6]
             if not ab and t_stop is not None and t_stop <= dl + late + 1e-9:
                 continue    # the connection ended (for another reason) no later than the deadline
             o.dec("unanswered")
